@@ -131,12 +131,16 @@ class RecSolver(nn.Module):
         rec = {"A": raw(A).clone(), "b": raw(b).clone(), "damping": pg.get("damping"), "min": pg.get("min"), "max": pg.get("max"),
                "params": [raw(p).clone() for p in pg["params"]]}
         k = len(self.log)
-        D = self.inner(A=A, b=b)
+        self.log.append(rec)
+        try:
+            D = self.inner(A=A, b=b)
+        except Exception as e:      # LM prints the message and breaks out of its loop (property C08 / C10)
+            rec["raised"] = f"{type(e).__name__}: {str(e)[:120]}"
+            raise
         rec["D_true"] = raw(D).clone()
         if k < len(self.bad) and self.bad[k] is not None:
             D = D * self.bad[k]
         rec["D"] = raw(D).clone()
-        self.log.append(rec)
         return D
 
 
@@ -308,10 +312,13 @@ def clamp64(x, lo, hi):
     return torch.minimum(torch.maximum(x, torch.tensor(float(lo), dtype=torch.float64)), torch.tensor(float(hi), dtype=torch.float64))
 
 
-def worst(obs, ref, scale, tol):
-    """largest violation ratio of |obs-ref| <= tol*scale (+ tiny) and its flat index"""
+FLOOR = {"float64": 1e-300, "float32": 64 * 1.1754944e-38}   # products below the dtype's normal range underflow
+
+
+def worst(obs, ref, scale, tol, floor=1e-300):
+    """largest violation ratio of |obs-ref| <= tol*scale (+ underflow floor) and its flat index"""
     err = (obs.double() - ref.double()).abs()
-    lim = tol * scale.double() + 1e-300
+    lim = tol * scale.double() + floor
     ratio = err / lim
     ratio = torch.nan_to_num(ratio, nan=float("inf"))
     if ratio.numel() == 0:
@@ -343,7 +350,7 @@ def indep_update(env, before, D):
     return out, off
 
 
-def update_tolerances(env, before, after_ref, D, eps):
+def update_tolerances(env, before, after_ref, D, eps, floor=0.0):
     """per-parameter (abs tolerance tensor) following the property's block tolerances"""
     tols, off = [], 0
     Dv = D.double().reshape(-1)
@@ -357,17 +364,25 @@ def update_tolerances(env, before, after_ref, D, eps):
         r = ref.double().reshape(n, sd)
         t = torch.zeros(n, sd, dtype=torch.float64)
         if kind == "G":
+            # a step of rotation angle th > 1 loses th ulp in the phase of sin/cos: every block scales with max(1, th)
+            big = torch.clamp(d[:, U.PHISL[g]].norm(dim=1), min=1.0)
             q = U.QSL[g]
-            t[:, q] = 32 * eps
+            t[:, q] = (32 * eps * big).unsqueeze(1)
+            sdl = torch.ones(n, dtype=torch.float64)
+            if U.SIGIDX[g] is not None:
+                sdl = torch.exp(d[:, U.SIGIDX[g]].clamp(max=700.0))
             if U.TSL[g] is not None:
                 ts = U.TSL[g]
-                sc = torch.maximum(torch.maximum(x[:, ts].abs().amax(1), r[:, ts].abs().amax(1)), d[:, :3].abs().amax(1))
-                t[:, ts] = (64 * eps * sc + 1e-300).unsqueeze(1)
+                # Exp's translation block: 4·sqrt(eps) relative to the translation scale of the step (the property's
+                # tolerance for Exp, C01); the group product t' = t_d + s_d R_d t: 64·eps·scale
+                sc = torch.maximum(torch.maximum(x[:, ts].abs().amax(1) * torch.clamp(sdl, min=1.0), r[:, ts].abs().amax(1)), x[:, ts].abs().amax(1))
+                tstep = d[:, :3].abs().amax(1) * torch.clamp(sdl, min=1.0)
+                t[:, ts] = ((64 * eps * sc + 4 * math.sqrt(eps) * tstep) * big + 1e-300).unsqueeze(1)
             if U.SIDX[g] is not None:
-                t[:, U.SIDX[g]] = 64 * eps * r[:, U.SIDX[g]].abs()
+                t[:, U.SIDX[g]] = 64 * eps * r[:, U.SIDX[g]].abs() * (1 + d[:, U.SIGIDX[g]].abs())
         else:
             t = 2 * eps * torch.maximum(x.abs(), d.abs()) + 1e-300
-        tols.append(t.reshape(ref.shape))
+        tols.append(t.reshape(ref.shape) + floor)
     return tols
 
 
@@ -413,7 +428,7 @@ def residual_shapes(env):
     with torch.no_grad():
         outs = env.model(*env.ins)
     outs = outs if isinstance(outs, tuple) else (outs,)
-    return [list(raw(o).shape) for o in outs], [raw(o) for o in outs]
+    return [list(raw(o).shape) for o in outs], [raw(o).clone() for o in outs]   # clone: tensor() of a parameter aliases it
 
 
 def step_weight_for(case, call, D):
@@ -434,6 +449,7 @@ def check_case(ctx: Ctx, case, pending):
     `pending` as (line, callback(reply))"""
     P = pp()
     eps = EPS[case["dtype"]]
+    fl = FLOOR[case["dtype"]]
     f32 = case["dtype"] == "float32"
     cd = cdesc(case)
     try:
@@ -455,6 +471,9 @@ def check_case(ctx: Ctx, case, pending):
         before = [raw(p).clone() for p in env.params]
         shapes, outs0 = residual_shapes(env)
         nres = len(shapes)
+        if not all(bool(torch.isfinite(o).all()) for o in outs0) or not all(bool(torch.isfinite(p_).all()) for p_ in before):
+            ctx.count("degenerate.nonfinite-forward")     # earlier (deliberately bad) steps drove the model out of its domain
+            return ok
         # raw Jacobian blocks, as the optimizer obtains them
         try:
             with contextlib.redirect_stdout(io.StringIO()):
@@ -476,6 +495,10 @@ def check_case(ctx: Ctx, case, pending):
         after = [raw(p).clone() for p in env.params]
         if raised is not None:
             msg = f"{type(raised).__name__}: {str(raised)[:160]}"
+            _, outs1 = residual_shapes(env)
+            if not all(bool(torch.isfinite(o).all()) for o in outs1):
+                ctx.count("degenerate.nonfinite-forward")   # a (deliberately bad) trial step left the model's domain
+                return ok
             if n_frozen:
                 ctx.fail(cd, f"frozen: step() raises for a model with a requires_grad=False parameter ({msg})")
             else:
@@ -608,15 +631,15 @@ def check_case(ctx: Ctx, case, pending):
             if list(A.shape) != [m, n] or b.numel() != m:
                 ctx.fail(cd, f"weight: GN system has shape {list(A.shape)}, {list(s0['b'].shape)}; expected {[m, n]}, {[m, 1]} ({tag})")
                 return False
-            r1, i1 = worst(A, ind["WJ"], ind["aWJ"], 64 * eps)
-            r2, i2 = worst(b, -ind["WR"], ind["aWR"], 64 * eps)
+            r1, i1 = worst(A, ind["WJ"], ind["aWJ"], 64 * eps, fl)
+            r2, i2 = worst(b, -ind["WR"], ind["aWR"], 64 * eps, fl)
             if r1 > 1 or r2 > 1:
                 ctx.fail(cd, f"weight: GN system is not (W J', -W R') with W applied per residual item: A ratio {r1:.2e} at {i1}, "
                              f"b ratio {r2:.2e} at {i2} (weights {wtag}) ({tag})")
                 ok = False
             line = "c07.gn " + hdr + (" " + rdata if rdata else "") + (" " + wdata if wdata else "")
 
-            def cb_gn(rep, A=A, b=b, ind=ind, cd=cd, tag=tag, m=m, n=n, eps=eps, wtag=wtag):
+            def cb_gn(rep, A=A, b=b, ind=ind, cd=cd, tag=tag, m=m, n=n, eps=eps, wtag=wtag, fl=fl):
                 st, toks = common.parse_reply(rep)
                 if st != "ok":
                     ctx.disagree("gn", cd, f"{tag}: model raises ({toks}) where the implementation builds a system (weights {wtag})")
@@ -626,8 +649,8 @@ def check_case(ctx: Ctx, case, pending):
                     ctx.disagree("gn", cd, f"{tag}: model system has {toks[0]} rows, implementation {m}")
                     return
                 Am, bm = vals[: m * n].reshape(m, n), vals[m * n:]
-                r1, i1 = worst(A, Am, ind["aWJ"], 64 * eps)
-                r2, i2 = worst(b, bm, ind["aWR"], 64 * eps)
+                r1, i1 = worst(A, Am, ind["aWJ"], 64 * eps, fl)
+                r2, i2 = worst(b, bm, ind["aWR"], 64 * eps, fl)
                 if r1 > 1 or r2 > 1:
                     ctx.disagree("gn", cd, f"{tag}: (A, b) differ from the model: A ratio {r1:.2e} at {i1}, b ratio {r2:.2e} at {i2} (weights {wtag})")
             pending.append((line, cb_gn))
@@ -651,8 +674,8 @@ def check_case(ctx: Ctx, case, pending):
                 scA = ind["aH"].clone()
                 scA.diagonal().copy_(sc_d * prodf)
                 tolk = (64 + 8 * (k_ + 1)) * eps
-                r1, i1 = worst(A, Aref, scA, tolk)
-                r2, i2 = worst(b, bref, ind["ag"], 64 * eps)
+                r1, i1 = worst(A, Aref, scA, tolk, fl)
+                r2, i2 = worst(b, bref, ind["ag"], 64 * eps, fl)
                 if r1 > 1 or r2 > 1:
                     ctx.fail(cd, f"lm-system: trial {k_ + 1} of {K}: A_k is not JᵀWJ with its diagonal clamped to [{lo:g},{hi:g}] and damped by "
                                  f"prod(1+lambda_i), lambdas {lams[:k_ + 1]} (A ratio {r1:.2e} at {i1}), or b is not -JᵀWR (ratio {r2:.2e} at {i2}) "
@@ -664,7 +687,7 @@ def check_case(ctx: Ctx, case, pending):
             obsA = [s["A"].double() for s in env.sol_log]
             obsb = [s["b"].double().reshape(-1) for s in env.sol_log]
 
-            def cb_lm(rep, obsA=obsA, obsb=obsb, ind=ind, cd=cd, tag=tag, n=n, K=K, eps=eps, lams=lams, sc_d=sc_d, wtag=wtag):
+            def cb_lm(rep, obsA=obsA, obsb=obsb, ind=ind, cd=cd, tag=tag, n=n, K=K, eps=eps, lams=lams, sc_d=sc_d, wtag=wtag, fl=fl):
                 st, toks = common.parse_reply(rep)
                 if st != "ok":
                     ctx.disagree("lm", cd, f"{tag}: model raises ({toks}) where the implementation builds a system (weights {wtag})")
@@ -680,8 +703,8 @@ def check_case(ctx: Ctx, case, pending):
                     prodf *= 1.0 + lams[k_]
                     scA = ind["aH"].clone()
                     scA.diagonal().copy_(torch.maximum(sc_d * prodf, Am.diagonal().abs()))
-                    r1, i1 = worst(obsA[k_], Am, scA, (64 + 8 * (k_ + 1)) * eps)
-                    r2, i2 = worst(obsb[k_], bm, ind["ag"], 64 * eps)
+                    r1, i1 = worst(obsA[k_], Am, scA, (64 + 8 * (k_ + 1)) * eps, fl)
+                    r2, i2 = worst(obsb[k_], bm, ind["ag"], 64 * eps, fl)
                     if r1 > 1 or r2 > 1:
                         ctx.disagree("lm", cd, f"{tag}: trial {k_ + 1}/{K}: (A_k, b) differ from the model: A ratio {r1:.2e} at {i1}, "
                                                f"b ratio {r2:.2e} at {i2} (lambdas {lams[:k_ + 1]}, weights {wtag})")
@@ -697,6 +720,8 @@ def check_case(ctx: Ctx, case, pending):
             # strategy.update arguments
             Jcat, Rcat = torch.cat([j.double() for j in Jc]), torch.cat([r_.double().reshape(-1) for r_ in Rc])
             for k_, st_ in enumerate(env.str_log):
+                if "raised" in env.sol_log[k_]:
+                    break
                 if not (torch.equal(st_["J"].double(), Jcat) and torch.equal(st_["R"].double().reshape(-1), Rcat)
                         and torch.equal(st_["D"], env.sol_log[k_]["D"])):
                     ctx.fail(cd, f"update: strategy.update of trial {k_ + 1} does not receive cat(J'), D, cat(R') ({tag})")
@@ -705,6 +730,9 @@ def check_case(ctx: Ctx, case, pending):
 
         # ---------------- the solver's answer
         for k_, s in enumerate(env.sol_log):
+            if "raised" in s:
+                ctx.count("solve.raised")
+                continue
             if case["solver"] == "CG":
                 continue
             A, b, D = s["A"].double(), s["b"].double().reshape(-1), s["D_true"].double().reshape(-1)
@@ -715,7 +743,8 @@ def check_case(ctx: Ctx, case, pending):
             lim = (2e5 if not f32 else 2e3) * eps * (nA * nA * float(D.norm()) + nA * float(b.norm())) + 1e-300
             sv = torch.linalg.svdvals(A) if A.numel() else torch.zeros(0)
             smax = float(sv.max()) if sv.numel() else 0.0
-            pos = sv[sv > 1e-10 * smax] if smax > 0 else sv
+            pos = sv[sv > 1e-13 * smax] if smax > 0 else sv
+            # usable only when the numerical rank is unambiguous: no singular value in the grey zone
             well = smax > 0 and float(pos.min()) > (1e-5 if not f32 else 1e-2) * smax
             if well and float(gres.abs().max()) > lim * max(1.0, (smax / float(pos.min())) ** 2):
                 ctx.fail(cd, f"solve: D returned by {case['solver']} does not satisfy the normal equations of (A, b): "
@@ -725,9 +754,10 @@ def check_case(ctx: Ctx, case, pending):
             if well and uses_pinv and A.numel():
                 # minimum norm: D orthogonal to the null space of A
                 _, S_, Vh = torch.linalg.svd(A, full_matrices=True)
-                rk = int((S_ > 1e-10 * smax).sum())
+                rk = int((S_ > 1e-13 * smax).sum())
                 N0 = Vh[rk:]
-                if N0.numel() and float((N0 @ D).abs().max()) > (1e-6 if not f32 else 1e-2) * (float(D.norm()) + 1e-300):
+                floor_ = 1e4 * eps * float(b.norm()) / float(pos.min())
+                if N0.numel() and float((N0 @ D).abs().max()) > (1e-6 if not f32 else 1e-2) * float(D.norm()) + floor_ + 1e-300:
                     ctx.fail(cd, f"solve: D of the default/PINV solver is not the minimum-norm least-squares solution "
                                  f"(component {float((N0 @ D).abs().max()):.3e} in the null space of A) ({tag})")
                     ok = False
@@ -741,7 +771,7 @@ def check_case(ctx: Ctx, case, pending):
             if Dk.numel() != want_len:
                 return   # (cannot happen after a successful step)
             ref, used = indep_update(env, p_before, Dk)
-            tols = update_tolerances(env, p_before, ref, Dk, eps)
+            tols = update_tolerances(env, p_before, ref, Dk, eps, fl)
             for pi, (a_, r_, t_, rg) in enumerate(zip(p_after, ref, tols, env.rg)):
                 if not rg:
                     if not torch.equal(a_, p_before[pi]):
@@ -788,7 +818,7 @@ def check_case(ctx: Ctx, case, pending):
             check_update(before, env.sol_log[0]["D"], after, "the GN step")
         else:
             for k_, s in enumerate(env.sol_log):
-                if k_ < len(env.str_log):
+                if k_ < len(env.str_log) and "raised" not in s:
                     check_update(s["params"], s["D"], env.str_log[k_]["params"], f"+D of trial {k_ + 1}")
                     nxt = env.sol_log[k_ + 1]["params"] if k_ + 1 < len(env.sol_log) else after
                     if not all(torch.equal(x, y) for x, y in zip(nxt, env.str_log[k_]["params"])):
@@ -904,7 +934,7 @@ def wdiag_configs(rng, quick):
 # ----------------------------------------------------------------------------- case generation
 
 KERNELS = [("Huber", [1.0]), ("Huber", [0.3]), ("PseudoHuber", [1.0]), ("Cauchy", [1.0]), ("Cauchy", [0.5]), ("SoftLOne", [1.0]),
-           ("Arctan", [1.0]), ("Tolerant", [1.0, -1.0]), ("Scale", [2.0])]
+           ("Arctan", [1.0]), ("Tolerant", [1.0, -1.0]), ("Scale", [0.5])]
 DAMPINGS = [1e-9, 1e-7, 1e-6, 1e-4, 1e-2, 0.1, 1.0, 10.0, 1e3]
 MINS = [1e-9, 1e-6, 1e-6, 1e-6, 1e-3, 0.1, 1.0, 50.0]
 MAXS = [1e32, 1e32, 1e32, 1e3, 10.0, 1.0, 0.5, 1e-3]
@@ -966,7 +996,7 @@ def make_case(rng, **force):
             node, ty = bld.chain(start, force.get("depth", rng.choice([1, 1, 2, 2, 3, 4])))
             roots.append(node); rtys.append(ty)
         case = {"kind": "step", "dtype": dtype, "leaves": bld.leaves, "roots": roots,
-                "out_as_tensor": [rng.random() < 0.5 for _ in roots], "tuple_out": nres == 1 and rng.random() < 0.2,
+                "out_as_tensor": [True for _ in roots], "tuple_out": nres == 1 and rng.random() < 0.2,
                 "input_mode": rng.choice(["tuple", "tuple", "list", "dict", "single"])}
         n_in = sum(1 for lf in bld.leaves if lf["role"] == "input")
         if n_in == 0:
@@ -1048,6 +1078,10 @@ def make_case(rng, **force):
         else:
             kk = ks[0] or rand_kernel(rng)
             case["corrector"] = {"type": "FastTriggs", "kernel": kk}
+    # a LieTensor-valued residual is only usable without kernel / corrector (the library's own error message asks for
+    # `.tensor()` otherwise): keep the algebra LieTensor output in that configuration only
+    if case["kernel"] is None and case["corrector"] is None:
+        case["out_as_tensor"] = [rng.random() < 0.5 for _ in roots]
     # weights
     wmode = force.get("wmode", rng.choice(["none", "none", "ctor", "ctor", "step", "both"]))
     case["weight_ctor"] = gen_weight(rng, shapes, dtype, force.get("wsuffix")) if wmode in ("ctor", "both") else None
@@ -1066,7 +1100,7 @@ def make_case(rng, **force):
             call["weight"] = "none"
         if case["opt"] == "LM":
             nb = force.get("nbad", rng.choice([0, 0, 1, 1, 2, 3]))
-            call["bad"] = [rng.choice([-2.0, -3.0, 4.0, -1.0, 25.0]) for _ in range(nb)]
+            call["bad"] = [rng.choice([-2.0, -3.0, 4.0, -1.0, -0.5]) for _ in range(nb)]
             if ci > 0 and rng.random() < 0.5:
                 ed = {}
                 if rng.random() < 0.6:
